@@ -13,8 +13,8 @@ if "--wt" in sys.argv:
     wt = sys.argv[sys.argv.index("--wt") + 1]
 src = f"/tmp/seeds/{prop}/{n}"
 meta = json.load(open(f"{src}/meta.json"))
-loc = meta.get("demo_location", "") + " " + " ".join(meta.get("commands_run", []))
-m = re.search(r"(?:copy|drop|place|put)\s+\S*demo\S*\s+(?:to|into|as|at)\s+(\S+\.rs)", loc)
+loc = " ".join(str(meta.get(k, "")) for k in ("demo_location", "demo", "demonstration")) + " " + " ".join(meta.get("commands_run", []))
+m = re.search(r"(?:copy|drop|place|put)\s+(?:\S*demo\S*\s+)?(?:to|into|as|at)\s+(\S+\.rs)", loc)
 if not m:
     m = re.search(r"(\S+/tests/\S+\.rs)", loc)
 dest = m.group(1).rstrip(";,.)`") if m else None
